@@ -77,6 +77,79 @@ func NewSolver(kind string, timeoutMs int, logPath string) (*Solver, error) {
 	return s, nil
 }
 
+// Reset clears all assertions and definitions (z3: the next check runs non-incrementally, with the
+// full preprocessing pipeline, which decides some queries the incremental core does not).
+func (s *Solver) Reset() {
+	s.send("(reset)")
+	s.defined = []map[int64]bool{{}}
+	if strings.HasPrefix(s.Name, "z3") {
+		s.send(fmt.Sprintf("(set-option :timeout %d)", s.timeout))
+	} else {
+		s.send("(set-logic ALL)")
+	}
+	s.send("(set-option :produce-models true)")
+}
+
+// CheckFresh decides the conjunction of pc and extra statelessly.
+func (s *Solver) CheckFresh(pc []*Term, vars []*Term, extra []*Term) (SatResult, map[string]uint64) {
+	if s.dead {
+		return Unknown, nil
+	}
+	nerr := len(s.Errors)
+	start := time.Now()
+	usePush := !strings.HasPrefix(s.Name, "z3")
+	if usePush {
+		s.Push()
+	} else {
+		s.Reset()
+	}
+	for _, c := range pc {
+		s.Assert(c)
+	}
+	for _, c := range extra {
+		s.Assert(c)
+	}
+	for _, v := range vars {
+		s.define(v)
+	}
+	s.send("(check-sat)")
+	s.flush()
+	r, _ := s.readAnswer()
+	var model map[string]uint64
+	if r == Sat && vars != nil && len(s.Errors) == nerr {
+		model = map[string]uint64{}
+		for i := 0; i < len(vars); i += 64 {
+			j := min(i+64, len(vars))
+			var sb strings.Builder
+			sb.WriteString("(get-value (")
+			for _, v := range vars[i:j] {
+				sb.WriteString(ref(v) + " ")
+			}
+			sb.WriteString("))")
+			s.send(sb.String())
+			s.flush()
+			parseValues(s.readSexp(), vars[i:j], model)
+		}
+	}
+	if usePush {
+		s.Pop()
+	}
+	if len(s.Errors) != nerr {
+		r = Unknown
+	}
+	s.Queries[r]++
+	s.Time += time.Since(start)
+	return r, model
+}
+
+// SetTimeout changes the per-query timeout (z3 only; cvc5 keeps its start-up limit).
+func (s *Solver) SetTimeout(ms int) {
+	if strings.HasPrefix(s.Name, "z3") && ms != s.timeout {
+		s.send(fmt.Sprintf("(set-option :timeout %d)", ms))
+		s.timeout = ms
+	}
+}
+
 func (s *Solver) send(line string) {
 	s.pending.WriteString(line)
 	s.pending.WriteByte('\n')
